@@ -412,6 +412,45 @@ def gen_round7(rng, thorough):
     return out
 
 
+BOUNDARY_SIZES = list(range(1490, 1511)) + [255, 256, 257, 511, 512, 513, 1023, 1024, 1025, 2047, 2048, 2049, 4095, 4096, 4097,
+                                             8191, 8192, 8193, 16383, 16384, 16385, 32767, 32768, 32769, 65505, 65506, 65507, 65534, 65535]
+
+
+def gen_final(rng, thorough):
+    """(a) udpTunnelConn round trip over datagram SIZES at the usual boundaries (MTU 1490..1510, 2^k +-1, 65505..65507, 65535);
+    (b) the real client Tunnel with an idle local application: the peer's close notification must end the relay;
+    (c) relays ending with a tunnel write error (and otherwise), then the copy-buffer pool must hand out distinct buffers"""
+    out = []
+    sizes = list(BOUNDARY_SIZES)
+    rng.shuffle(sizes)
+    per = 6
+    for i in range(0, len(sizes), per):
+        ds = [rand_bytes(rng, n) for n in sizes[i:i + per]] + [rand_bytes(rng, 3)]
+        out.append({"mode": "udptc", "dgrams": [d.hex() for d in ds], "cut": -1, "big": True,
+                    "tunnel": {"cuts": rng.choice([[], [70000] * 3, [1500, 1500, 3, 100000]]), "end": 0, "wd": False}})
+    for proto, pre in (("tcp", 0), ("tcp", 1), ("udp", 0)):
+        out.append({"mode": "tunpeer", "proto": proto, "pre": pre})
+
+    def ep(n, **kw):
+        d = {"data": rand_bytes(rng, n).hex(), "cuts": [], "end": 0, "wd": False, "wlimit": -1, "wkind": 0, "gate": -1, "wrap": 0}
+        d.update(kw)
+        return d
+    for variant in range(3 if thorough else 2):
+        relays = []
+        for j in range(rng.choice([2, 3])):
+            a, b = ep(rng.choice([40, 200])), ep(rng.choice([0, 30]))
+            if j == 0 or rng.random() < 0.3:
+                if variant == 0:
+                    b["wlimit"] = rng.randrange(0, 30)                  # the tunnel refuses the local->tunnel write
+                elif variant == 1:
+                    a["wlimit"], b["data"] = rng.randrange(0, 10), rand_bytes(rng, 50).hex()   # the local side refuses a write
+                else:
+                    b["wlimit"], b["wkind"] = rng.randrange(0, 30), 1   # short write
+            relays.append({"a": a, "b": b})
+        out.append({"mode": "poolprobe", "relays": relays})
+    return out
+
+
 def corpus():
     d = os.path.join(vlib.VERIF, "corpus", "C12")
     out = []
@@ -509,6 +548,10 @@ def describe(c):
     if c["mode"] == "rt":
         return "rt dgram sizes %s cut=%s cuts=%s end=%s wd=%s" % ([len(x) // 2 for x in c["dgrams"]][:12], c.get("cut"),
                                                                  (c["tunnel"].get("cuts") or [])[:8], c["tunnel"].get("end"), c["tunnel"].get("wd"))
+    if c["mode"] == "tunpeer":
+        return "tunpeer %s tunnel, idle local application, half-closable=%s" % (c.get("proto"), c.get("pre") == 1)
+    if c["mode"] == "poolprobe":
+        return "poolprobe %d relays, write limits %s" % (len(c["relays"]), [(r["a"]["wlimit"], r["b"]["wlimit"]) for r in c["relays"]])
     if c["mode"] == "tcpreal":
         return "tcpreal request %d bytes, response %d bytes" % (len(c["a"]["data"]) // 2, len(c["b"]["data"]) // 2)
     if c["mode"] == "udptrickle":
@@ -559,6 +602,7 @@ def run(ctx, only_cases=None):
         cases += gen_failure_kinds(rng, thorough)
         cases += gen_udptc(rng, 300 if thorough else 45)
         cases += gen_round7(rng, thorough)
+        cases += gen_final(rng, thorough)
     outs = run_batch(binary, cases)
 
     # (iii) the property's predicate, evaluated by the harness on the real relays' own outputs
@@ -616,7 +660,8 @@ def run(ctx, only_cases=None):
             "endpoints_with_empty_reads": 0, "read_failure_kinds": {str(k): 0 for k in range(10)},
             "half_close_enforcing_endpoints": 0, "socks_udp_tunnel_conn": 0, "tcp_idle_after_half_close": 0,
             "real_tcp_half_closed_slow_reader": 0, "real_tcp_skipped": 0, "udp_trickle_real_time": 0,
-            "udp_trickle_first_write_ms": [], "virtual_time_one_way_feed": 0}
+            "udp_trickle_first_write_ms": [], "virtual_time_one_way_feed": 0, "tunnel_peer_closed_idle_local": 0,
+            "copy_buffer_pool_probes": 0, "udptc_boundary_sizes": 0}
     for c in cases:
         for key in ("tunnel", "a", "b"):
             sp = c.get(key)
@@ -644,6 +689,10 @@ def run(ctx, only_cases=None):
             dist["end_with_last_chunk"] += 1 if c["tunnel"].get("wd") else 0
             if u2.get("n_delivered", 0) >= 1 and c.get("cut", -1) >= 0:
                 nontrivial.add(h)
+        elif c["mode"] == "tunpeer":
+            dist["tunnel_peer_closed_idle_local"] += 1
+        elif c["mode"] == "poolprobe":
+            dist["copy_buffer_pool_probes"] += 1
         elif c["mode"] == "tcpreal":
             dist["real_tcp_half_closed_slow_reader"] += 1
             dist["real_tcp_skipped"] += 1 if (o.get("tr") or {}).get("skipped") else 0
@@ -652,6 +701,7 @@ def run(ctx, only_cases=None):
             dist["udp_trickle_first_write_ms"].append((o.get("tk") or {}).get("first_tunnel_write_ms"))
         elif c["mode"] == "udptc":
             dist["socks_udp_tunnel_conn"] += 1
+            dist["udptc_boundary_sizes"] += sum(1 for x in c["dgrams"] if len(x) // 2 in BOUNDARY_SIZES)
             if (o.get("tc") or {}).get("n_delivered", 0) >= 2:
                 nontrivial.add(h)
         elif c["mode"] == "udpgate":
